@@ -18,7 +18,7 @@ Open Scope Z_scope.
    current working tree, re-translated statement by statement on every run (harness/py2gal.py ->
    Generated/SrcSampling.v: the match on the model class, the four None checks, the seed-sequence / generator
    construction, the burn-in loop, the thinning loop with its `(step_index + 1) % thin == 0` test, the VI
-   branch); started with no call issued yet, it equals the hand-written model for ALL arguments, so every
+   branch with its two None checks and the same seed-sequence / generator construction); started with no call issued yet, it equals the hand-written model for ALL arguments, so every
    theorem below is a theorem about the translated source. *)
 Theorem C17_model_is_source : forall kind seed n_chains chain_index n_burnin thin n_thetas len0 returned,
   src_sample kind seed n_chains chain_index n_burnin thin n_thetas ([], len0) returned
@@ -89,12 +89,13 @@ Theorem C17_streams_distinct_partial : forall seed nc ci1 ci2,
 Proof. exact c17_streams_distinct. Qed.
 Print Assumptions C17_streams_distinct_partial.
 
-(* variational models: reset, default_rng(seed), asked exactly once for exactly n samples, which are all
-   stored (when the model honours its contract and returns n of them); the MCMC arguments are ignored *)
+(* variational models: reset, the generator of (seed, n_chains, chain_index) built as for MCMC models, asked exactly once
+   for exactly n samples, which are all stored (when the model honours its contract and returns n of them); n_burnin and
+   thin are ignored *)
 Theorem C17_vi_once : forall seed nc ci b t n,
-  0 <= seed -> 0 <= n ->
-  sample 1 seed nc ci b t n 0 (Z.to_nat n)
-  = Ok (Reset :: SetRng seed [] :: SampleVI n :: repeat Record (Z.to_nat n), n) /\ is_complete n n = true.
+  0 <= seed -> 0 <= ci < nc -> 0 <= n ->
+  sample 1 seed (Some nc) (Some ci) b t n 0 (Z.to_nat n)
+  = Ok (Reset :: SetRng seed [ci] :: SampleVI n :: repeat Record (Z.to_nat n), n) /\ is_complete n n = true.
 Proof. exact c17_vi_once. Qed.
 Print Assumptions C17_vi_once.
 
@@ -107,6 +108,12 @@ Theorem C17_none_refused : forall seed nc ci b t n len0 ret,
   nc = None \/ ci = None \/ b = None \/ t = None -> sample 0 seed nc ci b t n len0 ret = Err 5.
 Proof. exact c17_none_refused. Qed.
 Print Assumptions C17_none_refused.
+
+(* ... and a None for n_chains or chain_index for VI models (the generator is derived from them) *)
+Theorem C17_vi_none_refused : forall seed nc ci b t n len0 ret,
+  nc = None \/ ci = None -> sample 1 seed nc ci b t n len0 ret = Err 5.
+Proof. exact c17_vi_none_refused. Qed.
+Print Assumptions C17_vi_none_refused.
 
 (* observation outside the property's quantifier: a negative chain index is not refused, python list
    indexing makes chain_index = -1 share the stream of chain n_chains - 1 *)
@@ -127,24 +134,55 @@ Theorem C17_mcmc_chains_distinct_partial : forall seed nc ci1 ci2 b1 t1 n1 l1 b2
 Proof. exact c17_mcmc_chains_distinct. Qed.
 Print Assumptions C17_mcmc_chains_distinct_partial.
 
-(* VI models: n_chains, chain_index (and n_burnin, thin) are not read at all - the generator is default_rng(seed) *)
-Theorem C17_vi_generator_ignores_chain : forall seed nc ci b t nc' ci' b' t' n len0 ret,
-  sample 1 seed nc ci b t n len0 ret = sample 1 seed nc' ci' b' t' n len0 ret.
-Proof. exact c17_vi_ignores_chain. Qed.
-Print Assumptions C17_vi_generator_ignores_chain.
+(* VI models (repaired in /repo, fix PENDING; KNOWN_FINDINGS vi-chains-share-generator is `fixed`): whatever n, the holder and
+   the number of samples the model returns are, a successful run is Reset, SetRng (rng_key seed n_chains chain_index) - the key
+   C17_key_fun / C17_key_injective / C17_streams_distinct_partial speak about -, one SampleVI n, then only records *)
+Theorem C17_vi_key_in_trace : forall seed nc ci b t n len0 ret tr len,
+  sample 1 seed (Some nc) (Some ci) b t n len0 ret = Ok (tr, len) ->
+  exists k rest, rng_key seed nc ci = Ok k /\ tr = Reset :: SetRng (fst k) (snd k) :: SampleVI n :: rest /\
+                 forall e, In e rest -> e = Record.
+Proof. exact c17_vi_key_in_trace. Qed.
+Print Assumptions C17_vi_key_in_trace.
 
 Theorem C17_vi_handed_key : forall seed nc ci b t n len0 ret tr len,
-  sample 1 seed nc ci b t n len0 ret = Ok (tr, len) -> handed_key tr = Some (seed, []).
+  sample 1 seed (Some nc) (Some ci) b t n len0 ret = Ok (tr, len) ->
+  exists k, rng_key seed nc ci = Ok k /\ handed_key tr = Some k.
 Proof. exact c17_vi_handed_key. Qed.
 Print Assumptions C17_vi_handed_key.
 
-(* REFUTED (a finding, KNOWN_FINDINGS vi-chains-share-generator): for a VI model the clause "a different stream for every other
-   chain index" fails inside the property's quantifier - seed 0, n_chains 2, chain indices 0 and 1, n = 1 *)
+(* two successful VI runs for different chain indices below n_chains hand different keys to set_rng.
+   PARTIAL for the same reason as C17_streams_distinct_partial (keys, not streams). *)
+Theorem C17_vi_chains_distinct_partial : forall seed nc ci1 ci2 b1 t1 n1 l1 r1 b2 t2 n2 l2 r2 tr1 len1 tr2 len2,
+  0 <= ci1 < nc -> 0 <= ci2 < nc -> ci1 <> ci2 ->
+  sample 1 seed (Some nc) (Some ci1) b1 t1 n1 l1 r1 = Ok (tr1, len1) ->
+  sample 1 seed (Some nc) (Some ci2) b2 t2 n2 l2 r2 = Ok (tr2, len2) ->
+  handed_key tr1 <> handed_key tr2.
+Proof. exact c17_vi_chains_distinct. Qed.
+Print Assumptions C17_vi_chains_distinct_partial.
+
+(* the same triple gives a VI model and an MCMC model the same key: one rule for every model class *)
+Theorem C17_vi_key_as_mcmc : forall seed nc ci b t n len0 ret tr len b' t' n' len0' tr' len',
+  sample 1 seed (Some nc) (Some ci) b t n len0 ret = Ok (tr, len) ->
+  sample 0 seed (Some nc) (Some ci) (Some b') (Some t') n' len0' 0%nat = Ok (tr', len') ->
+  handed_key tr = handed_key tr'.
+Proof. exact c17_vi_key_as_mcmc. Qed.
+Print Assumptions C17_vi_key_as_mcmc.
+
+(* n_burnin and thin are still not read for a VI model *)
+Theorem C17_vi_ignores_schedule : forall seed nc ci b t b' t' n len0 ret,
+  sample 1 seed nc ci b t n len0 ret = sample 1 seed nc ci b' t' n len0 ret.
+Proof. exact c17_vi_ignores_schedule. Qed.
+Print Assumptions C17_vi_ignores_schedule.
+
+(* REFUTED for the PRE-REPAIR variant only (Model.Sampling.sample_pre_repair: default_rng(seed) whatever the chain; it is no
+   longer what the source says - C17_model_is_source is about `sample`): the clause "a different stream for every other chain
+   index" failed inside the property's quantifier - seed 0, n_chains 2, chain indices 0 and 1, n = 1.  The same witness on the
+   repaired model is C17_vi_repaired_witness_example below and corpus/C17/vi-chains-share-generator.json on the code. *)
 Theorem C17_vi_streams_distinct_refuted :
   exists seed nc ci1 ci2 n tr1 len1 tr2 len2,
     0 <= seed /\ 1 <= n /\ 0 <= ci1 < nc /\ 0 <= ci2 < nc /\ ci1 <> ci2 /\
-    sample 1 seed (Some nc) (Some ci1) (Some 0) (Some 1) n 0 (Z.to_nat n) = Ok (tr1, len1) /\
-    sample 1 seed (Some nc) (Some ci2) (Some 0) (Some 1) n 0 (Z.to_nat n) = Ok (tr2, len2) /\
+    sample_pre_repair 1 seed (Some nc) (Some ci1) (Some 0) (Some 1) n 0 (Z.to_nat n) = Ok (tr1, len1) /\
+    sample_pre_repair 1 seed (Some nc) (Some ci2) (Some 0) (Some 1) n 0 (Z.to_nat n) = Ok (tr2, len2) /\
     handed_key tr1 = handed_key tr2.
 Proof. exact c17_vi_streams_distinct_refuted. Qed.
 Print Assumptions C17_vi_streams_distinct_refuted.
@@ -204,8 +242,15 @@ Example C17_full_holder_refused_example :
   sample 0 5 (Some 3) (Some 1) (Some 1) (Some 2) 2 1 0%nat = Err 1.
 Proof. vm_compute. reflexivity. Qed.
 Example C17_vi_example :
-  sample 1 7 None None None None 2 0 2%nat = Ok ([Reset; SetRng 7 []; SampleVI 2; Record; Record], 2).
+  sample 1 7 (Some 3) (Some 1) None None 2 0 2%nat = Ok ([Reset; SetRng 7 [1]; SampleVI 2; Record; Record], 2).
 Proof. vm_compute. reflexivity. Qed.
+Example C17_vi_none_example : sample 1 7 None None None None 2 0 2%nat = Err 5.
+Proof. vm_compute. reflexivity. Qed.
+(* the former witness (seed 0, two chains, n = 1) on the repaired model: different keys *)
+Example C17_vi_repaired_witness_example :
+  sample 1 0 (Some 2) (Some 0) (Some 0) (Some 1) 1 0 1%nat = Ok ([Reset; SetRng 0 [0]; SampleVI 1; Record], 1) /\
+  sample 1 0 (Some 2) (Some 1) (Some 0) (Some 1) 1 0 1%nat = Ok ([Reset; SetRng 0 [1]; SampleVI 1; Record], 1).
+Proof. vm_compute. split; reflexivity. Qed.
 Example C17_handed_key_example :
   handed_key [Reset; SetRng 5 [1]; Step; Record] = Some (5, [1]).
 Proof. vm_compute. reflexivity. Qed.
